@@ -2,6 +2,8 @@ import ALV.Common.Json
 import ALV.Model.C16
 import ALV.Model.C16Gen
 import ALV.Model.C16X
+import ALV.Model.C16K
+import ALV.Spec.C16K
 import ALV.Spec.C16
 namespace ALV.Driver.C16
 open ALV ALV.J ALV.C16
@@ -161,6 +163,59 @@ def runStreamixX (j : Json) : Except String Json := do
     ("n", natToJson sr.1.n),
     ("length", natToJson (mixLength sr.1.evs))]
 
+
+/-! ### typed numbers (entry `streamix_k`) and a mutable list zero (entry `streamix_mut`) -/
+
+def kindOfStr : String → Except String Kind
+  | "bool" => pure .bool | "int" => pure .int | "frac" => pure .frac | "float" => pure .float
+  | "complex" => pure .complex | k => throw s!"C16: unknown kind {k}"
+
+def kindStr : Kind → String
+  | .bool => "bool" | .int => "int" | .frac => "Fraction" | .float => "float" | .complex => "complex"
+
+/-- `{"k": kind, "v": re, "i": im}` -/
+def getPyNum (j : Json) : Except String PyNum := do
+  let k ← kindOfStr (← getStr (← field j "k"))
+  let re ← getRat (← field j "v")
+  let im ← getRat (fieldD j "i" (Json.int 0))
+  pure ⟨k, re, im⟩
+
+def pyNumJson (v : PyNum) : Json :=
+  Json.mkObj [("t", Json.str (kindStr v.kind)), ("v", ratToJson v.re), ("i", ratToJson v.im)]
+
+/-- the traced generator-level run with the IDENTITIES in `_not_playing` / `_playing` after every
+    operation (object number = rank of its `add` among the accepted ones), and the spec's observations -/
+def runStreamixIds {α : Type} [Add α] (getItem : Json → Except String α) (toJ : α → Json)
+    (zero : α) (j : Json) : Except String Json := do
+  let keep ← getBool (fieldD j "keep" (Json.bool false))
+  let ops ← getList (getOp getItem) (← field j "ops")
+  let tr := ptrace zero (PState.init keep : PState α) ops
+  let m := tr.map fun (st, o) =>
+    let cnt := if st.suspended && !st.ended then ratToJson st.count else Json.null
+    Json.arr [obsJson toJ o, nats (st.notPlaying.map (·.2.id)), nats (st.playing.map (·.id)), cnt]
+  let sr := srun zero (SState.init keep : SState α) ops
+  pure <| Json.mkObj [
+    ("model", Json.arr m),
+    ("spec", arr (obsJson toJ) sr.2),
+    ("starts", nats (sr.1.evs.map (·.start))),
+    ("length", natToJson (mixLength sr.1.evs))]
+
+/-- a mixer whose zero is a Python list: what the machine with the mutable cell shows (`krun`), what
+    the spec with the cell shows (`ksrun`), and what the property asks for (`srun`: zero + items due) -/
+def runStreamixMut (j : Json) : Except String Json := do
+  let keep ← getBool (fieldD j "keep" (Json.bool false))
+  let zero : PyList := ⟨← getList getInt (fieldD j "zero" (Json.arr []))⟩
+  let getItem : Json → Except String PyList := fun x => do pure ⟨← getList getInt x⟩
+  let toJ : PyList → Json := fun v => ints v.items
+  let ops ← getList (getOp getItem) (← field j "ops")
+  let kr := krun zero (PState.init keep) ops
+  let sr := srun zero (SState.init keep) ops
+  pure <| Json.mkObj [
+    ("mut", arr (obsJson toJ) kr.2.2),
+    ("mutspec", arr (obsJson toJ) (ksrun zero (SState.init keep) ops)),
+    ("cell", toJ kr.1),
+    ("spec", arr (obsJson toJ) sr.2)]
+
 def handle (entry : String) (j : Json) : Except String Json := do
   match entry with
   | "streamix" =>
@@ -169,6 +224,10 @@ def handle (entry : String) (j : Json) : Except String Json := do
   | "streamix_seq" =>          -- items are one-element tuples, zero a tuple, `+` is concatenation
     let zero ← getList getInt (fieldD j "zero" (Json.arr []))
     runStreamix (fun x => do pure (⟨[← getInt x]⟩ : Seq)) (fun (v : Seq) => ints v.items) ⟨zero⟩ j
+  | "streamix_k" =>            -- Python numbers with their type; identities of the containers
+    let zero ← getPyNum (← field j "zero")
+    runStreamixIds getPyNum pyNumJson zero j
+  | "streamix_mut" => runStreamixMut j
   | "streamix_x" => runStreamixX j
   | "streamix_sys" =>          -- several mixers (their sources are independent copies): one payload each
     let ms ← getList runStreamixX (← field j "mixers")
